@@ -385,3 +385,39 @@ func (c *Ctx) ff0(role string) string {
 	}
 	return ""
 }
+
+// commentField: the name of the text field of the comment item type (the struct type whose render
+// implementation is the comment renderer) — found by type, so renaming the field does not matter.
+func (c *Ctx) commentField() string {
+	if v, ok := c.extra("commentField"); ok {
+		return v.(string)
+	}
+	name := "comment"
+	if f := c.implOf(c.renderName(), "jen.comment"); f != nil && f.Signature.Recv() != nil {
+		if st, ok := f.Signature.Recv().Type().Underlying().(*types.Struct); ok {
+			for i := 0; i < st.NumFields(); i++ {
+				if b, ok := st.Field(i).Type().Underlying().(*types.Basic); ok && b.Info()&types.IsString != 0 {
+					name = st.Field(i).Name()
+					break
+				}
+			}
+		}
+	}
+	c.setExtra("commentField", name)
+	return name
+}
+
+func (c *Ctx) extra(k string) (interface{}, bool) {
+	if c.memo == nil {
+		return nil, false
+	}
+	v, ok := c.memo[k]
+	return v, ok
+}
+
+func (c *Ctx) setExtra(k string, v interface{}) {
+	if c.memo == nil {
+		c.memo = map[string]interface{}{}
+	}
+	c.memo[k] = v
+}
